@@ -66,7 +66,7 @@ class HsWorld:
 
     # ---- real bytes of symbolic datagrams
     def nextseq(self):
-        self.seq += 1
+        self.seq += 3          # (a forged hello is built through _build_packet, which adds one: keep the attacker's datagram seqs apart)
         return self.seq
 
     def bytes_of(self, m):
